@@ -80,7 +80,8 @@ def _case(draw):
         reqs = []
         for _ in range(draw(st.integers(1, 4))):
             tid += 1
-            uid = draw(st.one_of(st.sampled_from(hosted), st.sampled_from([1, 2, 9])))
+            uid = draw(st.one_of(st.sampled_from(hosted), st.sampled_from([1, 2, 9]),
+                                 st.sampled_from([0, 1, 127, 128, 247, 248, 250, 254, 255]) if single else st.sampled_from([1, 2, 9])))
             reqs.append({'uid': uid, 'tid': tid, 'pdu': draw(_req()).hex(),
                          # MBAP protocol identifier of the request (socket framing only); clients send 0
                          'pid': draw(st.sampled_from([0, 0, 0, 0, 1, 0xFFFF, 0x0100]))})
